@@ -126,9 +126,106 @@ thread_local! {
     static AT_EXIT: AtExit = const { AtExit(RefCell::new(None)) };
 }
 
-/// `ctx` 0: plain call on a thread with the given stack; 1: inside a TLS destructor at thread exit.
+// ---- contended variant: weak-pointer traffic collides with the cascade on chosen nodes ----------
+
+use circ::verif as cv;
+use std::cell::Cell;
+use std::collections::HashMap;
+
+struct Targets(std::cell::UnsafeCell<HashMap<usize, (circ::Weak<LNode>, usize)>>);
+unsafe impl Sync for Targets {}
+static TARGETS: std::sync::OnceLock<Targets> = std::sync::OnceLock::new();
+static COLLISIONS: AtomicUsize = AtomicUsize::new(0);
+thread_local! {
+    static IN_HOOK: Cell<bool> = const { Cell::new(false) };
+}
+
+/// Just before the fourth access of the count word of a target node - which, for a node reached by
+/// the cascade, is the compare-exchange that marks it destructed (after the parent's load and
+/// decrement and the node's own load) - "another thread" clones a Weak to that node (done inline:
+/// the effect on the count word is the same), so that this compare-exchange fails exactly once.
+/// Colliding at every access would be an unfair adversary: the retry would never get through.
+fn collide(class: cv::Class, addr: usize) {
+    if class != cv::Class::State || IN_HOOK.with(|f| f.get()) {
+        return;
+    }
+    let Some(t) = TARGETS.get() else { return };
+    let map = unsafe { &mut *t.0.get() };
+    if let Some((w, seen)) = map.get_mut(&addr) {
+        *seen += 1;
+        if *seen != 4 {
+            return;
+        }
+        IN_HOOK.with(|f| f.set(true));
+        // keep the clone: dropping it at once would restore the very same count word
+        let c = w.clone();
+        std::mem::forget(c);
+        COLLISIONS.fetch_add(1, Ordering::Relaxed);
+        IN_HOOK.with(|f| f.set(false));
+    }
+}
+fn no_event(_: &cv::Event) {}
+fn no_quarantine(_: usize) -> bool {
+    false
+}
+static COLLIDER: cv::Hooks = cv::Hooks {
+    point: collide,
+    event: no_event,
+    quarantine: no_quarantine,
+};
+
+/// A chain of n nodes with a Weak to every `every`-th node.
+fn build_chain_with_weaks(n: usize, every: usize) -> Rc<LNode> {
+    let mut map = HashMap::new();
+    let mut head = leaf();
+    for i in 1..n {
+        head = node(head, Rc::null());
+        if i % every == 0 {
+            let w = head.downgrade();
+            map.insert(cv::word_addr::<LNode>(cv::rc_word(&head)), (w, 0));
+        }
+    }
+    let _ = TARGETS.set(Targets(std::cell::UnsafeCell::new(map)));
+    head
+}
+
+/// `ctx` 0: plain call on a thread with the given stack; 1: inside a TLS destructor at thread exit;
+/// 2: plain call while weak-pointer traffic collides with the cascade on every 500th node (chain only).
 /// `stack_kib` 0: the main thread.
 pub fn run_case(shape: usize, n: usize, stack_kib: usize, ctx: usize) -> i32 {
+    if ctx == 2 {
+        let head = std::thread::Builder::new()
+            .stack_size(64 << 20)
+            .spawn(move || {
+                let h = build_chain_with_weaks(n, 500);
+                rounds(6);
+                h
+            })
+            .unwrap()
+            .join()
+            .unwrap();
+        cv::install(&COLLIDER);
+        let work = move || {
+            destroy(head, n);
+        };
+        if stack_kib == 0 {
+            work();
+        } else {
+            let r = std::thread::Builder::new().stack_size(stack_kib << 10).spawn(work).unwrap().join();
+            if r.is_err() {
+                println!("PANIC");
+                return 4;
+            }
+        }
+        let d = DROPS.load(Ordering::Relaxed);
+        println!("DESTRUCTED {} of {} ({} collisions)", d, n, COLLISIONS.load(Ordering::Relaxed));
+        // the collisions must really have happened, or the case says nothing
+        if COLLISIONS.load(Ordering::Relaxed) < (n - 1) / 500 {
+            return 5;
+        }
+        // leave the Weaks alone: the process ends here
+        return if d == n { 0 } else { 3 };
+    }
     // build on a roomy thread, age the links, hand the head over
     let head = std::thread::Builder::new()
         .stack_size(64 << 20)
